@@ -27,7 +27,8 @@ var FaultKinds = []world.Fault{
 // C10Base draws a history with origin failures from the generators of the other properties.
 func C10Base(t *rapid.T) *world.Scenario {
 	var sc *world.Scenario
-	switch Weighted(t, "base", 20, 25, 15, 10, 10, 10, 10) {
+	base := Weighted(t, "base", 15, 20, 15, 20, 10, 10, 10)
+	switch base {
 	case 0:
 		sc = C01(t)
 	case 1:
@@ -53,6 +54,12 @@ func C10Base(t *rapid.T) *world.Scenario {
 			continue
 		}
 		lbl := "of" + itoa(int64(i))
+		if Pct(t, lbl+"-trace", 35) {
+			st.Req.TraceID = Pick(t, lbl+"-tid", "trace-1", "t", "00-4bf92f3577b34da6a3ce929d0e0e4736-00f067aa0ba902b7-01")
+		}
+		if base == 3 {
+			continue // the stale-if-error histories bring their own failing validations
+		}
 		switch Weighted(t, lbl, 60, 10, 10, 10, 10) {
 		case 1:
 			st.Req.Cond = &world.Reply{Kind: "err"}
